@@ -54,6 +54,9 @@ def run(pid, tier):
     for i in range(nhist):
         size = rnd.choice(['tiny', 'small', 'small', 'small', 'medium'])
         c = pgen.make_case(rnd.randrange(1 << 30), size)
+        if i % 20 == 19:
+            # a long-tour history: 25-60 jobs on few vehicles without tight constraints
+            c = pgen.long_tours(pgen.make_case(rnd.randrange(1 << 30), 'large', features={'unreachable': False, 'breaks': False, 'multishift': False, 'pd': True}))
         c['steps'] = steps
         c['threads'] = rnd.choice([1, 2, 4])
         c['seed'] = rnd.randrange(1 << 30)
